@@ -33,6 +33,7 @@ def gen_cases(tier):
     for v in ('M1', 'M2', 'M3', 'M4', 1):
         for lo in range(0, 1000 if tier == 'quick' else 10000, 100):
             yield ('auto', v, lo)
+    yield ('multiseg',)
     if tier == 'thorough':
         for v, lvl in T.all_version_levels():
             yield ('triple', v, lvl, None, 'full')
@@ -72,7 +73,30 @@ def auto_case(case, acc):
                 acc.violation('payload', 'payload differs', c2)
 
 
+def multiseg_case(acc):
+    reps = {'numeric': '123', 'alphanumeric': 'ABC', 'byte': 'abc', 'kanji': '\u70b9\u6f22'}
+    for a in reps:
+        for b in reps:
+            for content in ([reps[a], reps[b]], [reps[a], reps[b], reps[a]], [reps[a], reps[a], reps[b], reps[a]], [reps[a], reps[a]]):
+                for kw in ({}, {'micro': False}, {'version': 3, 'error': 'Q', 'mask': 5}):
+                    try:
+                        q = segno.make(content, **kw)
+                    except ValueError:
+                        continue
+                    rep = C.read(q)
+                    c2 = ('multiseg',)
+                    acc.eval(('multiseg', tuple(content), tuple(sorted(kw))), nontrivial=True, outcome=(q.mode, tuple(s_.mode for s_ in rep.segments or ())),
+                             state=('multiseg', a, b, len(content)))
+                    for p in rep.problems:
+                        if C.classify_problem(p) in ('geometry', 'format-info', 'version-info'):
+                            acc.violation(C.classify_problem(p), p, c2)
+                    for fam, msg in C.meta_problems(q, rep):
+                        acc.violation(fam, '%s  [make(%r, **%r)]' % (msg, content, kw), c2)
+
+
 def run_case(case, acc):
+    if case[0] == 'multiseg':
+        return multiseg_case(acc)
     if case[0] == 'auto':
         return auto_case(case, acc)
     if case[0] == 'auto1':
